@@ -14,7 +14,7 @@
    The partial line after a probe's seek is skipped on bytes (read_until; the repair of the
    read_line that failed inside a multi-byte character), every other line is read from its start,
    so read_line's UTF-8 validation never fails on valid UTF-8 input.  Not modelled: I/O errors. *)
-From BT Require Import Base.Util.
+From BT Require Import Base.Util Model.FileView Model.Chunker.
 Local Open Scope N_scope.
 
 Definition line := (N * N)%type.     (* chromosome id (0: malformed line), length *)
@@ -151,3 +151,52 @@ Fixpoint view_streams (f : file) (ix : list entry) : list file :=
   | [] => []
   | e :: r => lines_between f 0 (fst e) (match r with n :: _ => Some (fst n) | [] => None end) :: view_streams f r
   end.
+
+(* ---- the line-level file of a byte-level file ----
+   [key l]: what parse_line makes of the raw line l (bytes up to and including its newline): 0 when
+   it is rejected, else an id of the chromosome name (the bytes before the first TAB).  Every text is
+   covered, with any classification of its lines: the theorems quantify over [key]. *)
+Definition abs_line (key : list N -> N) (l : list N) : line := (key l, Nlen l).
+Definition lfile (key : list N -> N) (bytes : list N) : file := map (abs_line key) (split_lines bytes).
+
+(* maximal runs of consecutive elements with equal key, in order *)
+Fixpoint groups {X} (k : X -> N) (l : list X) : list (list X) :=
+  match l with
+  | [] => []
+  | x :: r =>
+      match groups k r with
+      | (y :: g) :: gs => if k x =? k y then (x :: y :: g) :: gs else [x] :: (y :: g) :: gs
+      | _ => [[x]]
+      end
+  end.
+
+(* the key of the first element of a group; maximal runs: every group is non-empty, has one key, and
+   differs in key from the group after it *)
+Definition ghd {X} (k : X -> N) (g : list X) : N := match g with x :: _ => k x | [] => 0 end.
+Fixpoint runs_ok {X} (k : X -> N) (gs : list (list X)) : Prop :=
+  match gs with
+  | [] => True
+  | g :: r => g <> [] /\ (forall x, In x g -> k x = ghd k g) /\
+              match r with g' :: _ => ghd k g' <> ghd k g | [] => True end /\
+              runs_ok k r
+  end.
+(* index entries of consecutive segments of raw lines laid out from byte [off]: (byte offset of the
+   segment, key of its first line) *)
+Fixpoint seg_starts (key : list N -> N) (off : N) (segs : list (list (list N))) : list entry :=
+  match segs with
+  | [] => []
+  | g :: r => (off, ghd key g) :: seg_starts key (off + Nlen (concat g)) r
+  end.
+
+(* what the parallel source (bbi/beddata.rs, BedParserParallelStreamingIterator) reads: for the index
+   entries in order, BufReader::new(FileView::new(file, curr.0, next.map(|n| n.0).unwrap_or(u64::MAX)))
+   line by line; task i reads with the size schedule [sz i] *)
+Fixpoint par_streams_from (i : nat) (fuel : nat) (bytes : list N) (sz : nat -> nat -> N) (ix : list entry)
+  : list (res (list (list N))) :=
+  match ix with
+  | [] => []
+  | e :: r =>
+      view_lines fuel bytes (sz i) (fst e) (match r with n :: _ => fst n | [] => u64_max end)
+      :: par_streams_from (S i) fuel bytes sz r
+  end.
+Definition par_streams := par_streams_from O.
